@@ -12,9 +12,16 @@
  * chain after every event is re-derived with refoscore_derive() from the configured secret / salt / IDs and that context's
  * ID Context and compared byte for byte.
  *
- * Families:  faults  -- all schedules with <= bound drop / duplicate deviations (default: FIFO delivery, timers when idle)
- *            tamper  -- one bit of the OSCORE option value or of the ciphertext of one protected datagram is flipped in a
- *                       copy that is handed to the recipient just before (or just after) the genuine datagram
+ * Families:  faults  -- vx: all schedules with <= bound drop / duplicate deviations (default: FIFO delivery, timers when idle)
+ *            tamper  -- vxp space "c14b2:tamper": for every configuration, every byte of the OSCORE option value and of the
+ *                       ciphertext of every protected datagram of the fault-free exchange (positions recorded by a dry run):
+ *                       a copy with one flipped bit is handed to the recipient just before (or just after) the genuine
+ *                       datagram; the recipient must neither call a handler nor go on with the exchange (= answer with an
+ *                       OSCORE protected message) unless the reference unprotects the modified copy as well
+ *
+ * Not judged (counted only): liveness after a duplicated datagram or a tampered copy -- e.g. a duplicated request #2 draws two
+ * Echo challenges, the client answers the first one, the server silently empty-ACKs the mismatch and the Confirmable exchange
+ * ends with neither response nor NACK (b2.con_exchanges_silent_after_duplicate).  C14 makes no liveness claim.
  */
 #include "netsim.h"
 #include "wire.h"
@@ -86,13 +93,14 @@ struct wrec {
   uint8_t ipayload[64];
   size_t iplen;
   int req; /* responses: index of the request record it is bound to */
+  uint8_t r2[64]; /* verified B.2 step 2 response: the R2 its kid context carries */
+  size_t r2len;
   char why[80];
 };
 #define MAXW 96
 static struct wrec W[MAXW];
 static int nW;
 static struct wrec *cur; /* record of the datagram being handed over right now */
-static int cur_unknown;  /* a datagram without record is being handed over (the modified copy) */
 static int in_tamper;
 static int tamper_done, tamper_srv_calls, tamper_cli_calls, tamper_protected_replies;
 static char tamper_what[120];
@@ -289,6 +297,12 @@ ref_judge(struct wrec *r, const uint8_t *bytes, size_t len) {
       rc = refoscore_unprotect_response(&ctx, &W[r->req].bind, &stripped, &merged, NULL);
     if (rc == REFOSCORE_OK) {
       r->verified = 1;
+      if (!r->is_req && v.has_kidctx && cand[k].n > W[r->req].idctx_len) {
+        r->r2len = cand[k].n - W[r->req].idctx_len;
+        if (r->r2len > sizeof r->r2)
+          r->r2len = 0;
+        memcpy(r->r2, cand[k].b, r->r2len);
+      }
       r->has_idctx = cand[k].has && cand[k].n > 0;
       r->idctx_len = cand[k].n;
       memcpy(r->idctx, cand[k].b, cand[k].n);
@@ -353,7 +367,6 @@ on_send(const ns_dgram_t *d) {
 static void
 on_deliver(const ns_dgram_t *d) {
   cur = rec_of(d);
-  cur_unknown = cur == NULL;
 }
 
 /* ---- Oracle 2: every security context either endpoint holds equals the independent derivation ---- */
@@ -443,9 +456,14 @@ check_chain(int side, const char *when, int judge_idctx) {
         ok = 1;
       if (side == 1 && C->idctx && idcl == sizeof IDCTX && !memcmp(idc, IDCTX, idcl))
         ok = 1;
-      for (int i = 0; i < nW && !ok; i++)
+      for (int i = 0; i < nW && !ok; i++) {
         if (W[i].verified && W[i].has_idctx && W[i].idctx_len == idcl && !memcmp(W[i].idctx, idc, idcl))
           ok = 1;
+        /* the client's R2 || R3 (R3: 8 fresh bytes of its own) exists before -- or, when the request has been answered in
+         * the clear meanwhile, without -- a request under it on the wire */
+        if (side == 0 && W[i].verified && W[i].r2len && idcl == W[i].r2len + 8 && !memcmp(W[i].r2, idc, W[i].r2len))
+          ok = 1;
+      }
       if (!ok) {
         snprintf(sig, sizeof sig, "b2:id-context-unexpected:%s", sn);
         vx_fail(sig, "%s %s: context #%d of the %s has ID Context %s (%zu bytes): neither the configured one nor one under which any datagram "
@@ -633,11 +651,9 @@ inject_tampered(const ns_dgram_t *d, int p, int bit, int is_opt) {
   coap_address_t src = d->src, dst = d->dst;
   in_tamper = 1;
   cur = NULL;
-  cur_unknown = 1;
   ns_inject_now(&src, &dst, copy, d->len);
   in_tamper = 0;
   cur = NULL;
-  cur_unknown = 0;
   free(copy);
   char region[60] = "ciphertext";
   if (is_opt) {
@@ -734,7 +750,6 @@ step(void) {
     break;
   }
   cur = NULL;
-  cur_unknown = 0;
   if (c)
     vx_nontrivial();
   check_chain(0, "after an event", 1);
@@ -748,7 +763,7 @@ run(void *arg) {
   ns_init();
   nW = 0;
   cur = NULL;
-  cur_unknown = in_tamper = tamper_done = tamper_srv_calls = tamper_cli_calls = tamper_protected_replies = 0;
+  in_tamper = tamper_done = tamper_srv_calls = tamper_cli_calls = tamper_protected_replies = 0;
   srv_calls = cli_calls = cli_ok205 = cli_err = cli_plain = nacks = foreign_tok = osc_events = plain_errors = faults_taken = drops_taken = dups_taken = submitted = 0;
   nseen_ctx = 0;
   plain_error_text[0] = 0;
@@ -951,8 +966,9 @@ main(int argc, char **argv) {
              "{GET, PUT with payload} x Appendix B.1.2 {on, off}; family faults: every schedule with <= bound (quick 1, thorough 2) drop / duplicate "
              "deviations of any of the first 40 datagrams, timers fire when the network is idle; family tamper (space c14b2:tamper): for every "
              "configuration and every protected datagram of its fault-free exchange, a copy with one flipped bit in the OSCORE option value or the "
-             "ciphertext is handed to the recipient just before (or just after) the genuine datagram -- thorough: every bit, both orders; quick: "
-             "one bit per byte on every second configuration (every bit on two), copy-after on six configurations; reference = refoscore watching "
+             "ciphertext is handed to the recipient just before (or just after) the genuine datagram -- thorough: both orders, one bit per byte "
+             "everywhere and every bit on 12 configurations (one per salt x ID Context x ids); quick: one bit per byte on every fourth "
+             "configuration (every bit on two), copy-after on three configurations; reference = refoscore watching "
              "the wire + re-derivation of every context in either endpoint's chain after every event; non-trivial = a deviation was taken");
   vx_ev_assumption("ID1, R2, R3 and Echo values come from libcoap's PRNG hook (netsim's deterministic generator); the reference learns them from the kid "
                    "context fields on the wire only");
@@ -985,10 +1001,11 @@ main(int argc, char **argv) {
       c.fam = FAM_TAMPER;
       c.bound = 0;
       c.after = after;
-      /* every bit: thorough everywhere; quick on the configurations with all features on / off.  Else one bit per byte */
-      int all_bits = T || (c.salt == c.idctx && c.idctx == c.payload && c.payload == c.b12 && c.con && c.ids == IDS_1_1 && !after);
-      if (!T && !all_bits && (after ? i % 16 != 5 : i % 2))
-        continue; /* quick: every second configuration, the copy-after order on six of them */
+      /* every bit: thorough on one configuration per (salt, ID Context, ids) with rotating (type, payload, B.1.2); quick on
+       * the two configurations with all features on / off.  Else one bit per byte (which bit rotates with the position) */
+      int all_bits = T ? i % 8 == (i / 8) % 8 : (c.salt == c.idctx && c.idctx == c.payload && c.payload == c.b12 && c.con && c.ids == IDS_1_1 && !after);
+      if (!T && !all_bits && (after ? i % 32 != 5 : i % 4 != 1))
+        continue; /* quick: every fourth configuration, the copy-after order on three more */
       snprintf(c.name, sizeof c.name, "c14b2:tamper:salt=%d,idctx=%d,ids=%s,%s,payload=%d,b12=%d,%s", c.salt, c.idctx, idsname[c.ids],
                c.con ? "con" : "non", c.payload, c.b12, after ? "copy-after" : "copy-before");
       TS = realloc(TS, sizeof *TS * (size_t)(nTS + 1));
